@@ -39,6 +39,16 @@ impl AItem for Vec<u8> {
 impl AItem for () {
     fn make(_: u64) -> Self {}
 }
+impl AItem for crate::types::Unit1 {
+    fn make(_: u64) -> Self {
+        crate::types::Unit1::Only
+    }
+}
+impl AItem for crate::types::Unit9 {
+    fn make(_: u64) -> Self {
+        crate::types::Unit9::Only
+    }
+}
 impl AItem for EnumData {
     fn make(i: u64) -> Self {
         match i % 4 {
@@ -50,7 +60,7 @@ impl AItem for EnumData {
     }
 }
 
-const ITEM_TYPES: [&str; 6] = ["u8", "u32", "String", "Vec<u8>", "()", "EnumData"];
+const ITEM_TYPES: [&str; 8] = ["u8", "u32", "String", "Vec<u8>", "()", "EnumData", "Unit1", "Unit9"];
 
 pub struct Append;
 
@@ -210,7 +220,7 @@ impl Scenario for Append {
         "exploration"
     }
     fn rule(&self) -> &'static str {
-        "seeded histories of 1..12 append_or_new calls on a stored blob mirrored by a reference model (count + deterministic items): item types u8, u32, String, Vec<u8>, (), derived enum; targets Vec and VecDeque; item forms &[T], Vec<T> by value, iter::once, Box<T> items, iterator of references, honest ExactSizeIterator of unit items; start from empty input or from the encoding of a sequence whose length sits on/around 63|64, 2^14, 2^30 (2^30 and beyond only for unit items; 2^14 for u8/unit); batches of size 0, 1, small, or exactly enough to reach / cross the next prefix-width boundary; dedicated histories around 2^32 (total exactly u32::MAX, one beyond, batch lengths >= 2^32); blobs whose count prefix was damaged (non-canonical, truncated, over-wide); oracle after every call: blob == compact(count) ++ reference encodings of all items, Err exactly when the total exceeds u32::MAX or the prefix is not a valid Compact<u32>; non-trivial = every history (at least one append executed)"
+        "seeded histories of 1..12 append_or_new calls on a stored blob mirrored by a reference model (count + deterministic items): item types u8, u32, String, Vec<u8>, (), derived enum, two zero-sized-in-memory enums with a one-byte encoding; targets Vec and VecDeque; item forms &[T], Vec<T> by value, iter::once, Box<T> items, iterator of references, honest ExactSizeIterator of unit items; start from empty input or from the encoding of a sequence whose length sits on/around 63|64, 2^14, 2^30 (2^30 and beyond only for unit items; 2^14 for u8/unit); batches of size 0, 1, small, or exactly enough to reach / cross the next prefix-width boundary; dedicated histories around 2^32 (total exactly u32::MAX, one beyond, batch lengths >= 2^32); blobs whose count prefix was damaged (non-canonical, truncated, over-wide); oracle after every call: blob == compact(count) ++ reference encodings of all items, Err exactly when the total exceeds u32::MAX or the prefix is not a valid Compact<u32>; non-trivial = every history (at least one append executed)"
     }
     fn cases(&self, tier: Tier) -> u64 {
         tiered(tier, 300_000, 10_000_000)
@@ -333,6 +343,8 @@ impl Scenario for Append {
             "Vec<u8>" => go!(Vec<u8>),
             "()" => go!(()),
             "EnumData" => go!(EnumData),
+            "Unit1" => go!(crate::types::Unit1),
+            "Unit9" => go!(crate::types::Unit9),
             other => panic!("harness: unknown item type {other}"),
         }
     }
